@@ -926,6 +926,11 @@ where
                 .unwrap();
             // Entry update deferred to file close, for performance.
         }
+        if bytes_to_write < buffer.len() {
+            // The file has reached the maximum size; the rest of the buffer
+            // was not written, which the caller must be told.
+            return Err(Error::DiskFull);
+        }
         Ok(())
     }
 
